@@ -350,7 +350,9 @@ class Stepper:
 
         def local(frame, event, arg):
             if getattr(self, "free", False):
-                return local                      # free-running: no turn taking any more
+                frame.f_trace_opcodes = False     # free-running: no turn taking (and no tracing of this frame) any more
+                frame.f_trace = None
+                return None
             if event == unit:
                 self.done_line.release()          # about to execute a line / a bytecode: hand the turn back
                 if not self.go[tid].acquire(timeout=TIMEOUT):
@@ -358,7 +360,7 @@ class Stepper:
             return local
 
         def glob(frame, event, arg):
-            if frame.f_code.co_filename not in self.files:
+            if frame.f_code.co_filename not in self.files or getattr(self, "free", False):
                 return None
             if self.opcodes:
                 frame.f_trace_opcodes = True
@@ -1422,6 +1424,8 @@ class ManualWorker(Worker):
                 return reg_eval(M, op, self.touched)
             if kind == "lcall":
                 return lcall(M, op)
+            if kind == "lstatic":
+                return lstatic(M)
             if kind in ("wdyn", "wcap", "wunc", "wun", "wcall"):
                 return w_eval(M, op, self.caps)
             if kind == "libprobe":
@@ -2105,45 +2109,93 @@ def init_collect(procs):
 REBIND_STEPS = 14
 
 
-def rebind_window(m, k):
-    """thread A runs use_dynamic_dispatch() of manager m under settrace and is stopped after k source lines; thread B then
-    looks the first name of _functions up through the manager module; A then runs to completion untraced.
-    Returns 0 (found) | 1 (AttributeError)"""
+def rebind_positions(rng, quick=True):
+    """(granularity, k): a sweep over the first source lines / bytecodes of the loop plus random positions inside the whole loop"""
+    pos = [("line", k) for k in range(12)] + [("opcode", k) for k in range(0, 60, 4)]
+    pos += [("line", rng.randrange(12, 3300)) for _ in range(4 if quick else 40)]
+    pos += [("opcode", rng.randrange(60, 13000)) for _ in range(5 if quick else 60)]
+    return pos
+
+
+class StopAt:
+    """settrace helper: the traced thread runs freely and counts the source lines (bytecodes) of the traced files it is about to
+    execute; when it is about to execute number k (1-based) it stops until resumed, afterwards it is not traced any more"""
+
+    def __init__(self, k, files, opcodes=False):
+        self.k, self.files, self.opcodes = k, files, opcodes
+        self.n = 0
+        self.reached = threading.Event()
+        self.resume = threading.Event()
+        self.off = False
+
+    def tracer(self):
+        unit = "opcode" if self.opcodes else "line"
+
+        def local(frame, event, arg):
+            if self.off:
+                frame.f_trace_opcodes = False
+                frame.f_trace = None
+                return None
+            if event == unit:
+                self.n += 1
+                if self.n == self.k:
+                    self.reached.set()
+                    self.resume.wait(TIMEOUT)
+                    self.off = True
+            return local
+
+        def glob(frame, event, arg):
+            if self.off or frame.f_code.co_filename not in self.files:
+                return None
+            if self.opcodes:
+                frame.f_trace_opcodes = True
+            return local
+        return glob
+
+
+def rebind_window(m, k, gran="line"):
+    """thread A runs use_dynamic_dispatch() of manager m under settrace and stops when it is about to execute its k-th source
+    line (bytecode) (k = 0: before the call); thread B then looks EVERY dispatched name up through the manager module; A then
+    runs to completion.  Returns (the names B found missing, lines / bytecodes counted when A stopped or ended)"""
     M = Mgr.get(m)
-    st = Stepper([1], traced_files())
-    st.free = False
+    sa = StopAt(k, traced_files(), opcodes=(gran == "opcode"))
+    ended = threading.Event()
 
     def A():
-        st.start(1)
+        sys.settrace(sa.tracer())
         try:
             M.mgr.use_dynamic_dispatch()
         finally:
-            st.finish(1)
-    th = threading.Thread(target=A, daemon=True)
-    th.start()
-    for _ in range(k):
-        if st.finished[1]:
-            break
-        st.go[1].release()
-        if not st.done_line.acquire(timeout=TIMEOUT):
-            raise HarnessStuck("re-binding thread did not reach its next line")
+            sys.settrace(None)
+            ended.set()
+            sa.reached.set()
     out = []
 
     def B():
-        try:
-            getattr(M.mgr, M.cls._functions[0])
-            out.append(0)
-        except AttributeError:
-            out.append(1)
+        missing = []
+        for nm in list(dict.fromkeys(list(M.cls._functions) + list(M.cls._attributes))):
+            try:
+                getattr(M.mgr, nm)
+            except AttributeError:
+                missing.append(nm)
+            except Exception:  # noqa
+                pass
+        out.append(missing)
+    th = threading.Thread(target=A, daemon=True)
+    if k > 0:
+        th.start()
+        if not sa.reached.wait(TIMEOUT):
+            raise HarnessStuck("re-binding thread did not reach its stop position")
     tb = threading.Thread(target=B, daemon=True)
     tb.start()
     tb.join(timeout=TIMEOUT)
-    st.free = True                       # the rest of the loop runs without turn taking
-    st.go[1].release()
+    sa.resume.set()
+    if k <= 0:
+        th.start()
     th.join(timeout=TIMEOUT)
     if not out or th.is_alive():
         raise HarnessStuck("re-binding scenario did not finish")
-    return out[0]
+    return out[0], sa.n
 
 
 def rebind_with_del(manager_cls):
@@ -2155,21 +2207,32 @@ def rebind_with_del(manager_cls):
     raise Unsupported("use_dynamic_dispatch: no loop over cls._functions")
 
 
-def _rebind_job(m):
+def rebind_total_lines(m):
+    """number of source lines a complete use_dynamic_dispatch() executes under the line tracer"""
+    return rebind_window(m, 10 ** 9)[1]
+
+
+def _rebind_job(job):
+    m, positions = job
     M = Mgr.get(m)
-    obs = [rebind_window(m, k) for k in range(REBIND_STEPS)]
+    # ... and the END of the call (the loop over the attributes comes last): stop 1, 3, 5 ... lines before it returns
+    total = rebind_total_lines(m)
+    positions = list(positions) + [("line", total - j) for j in range(1, 40, 2) if total - j > 0]
+    missing = [rebind_window(m, k, g)[0] for (g, k) in positions]
+    obs = [int(bool(x)) for x in missing]
     try:
         wd = int(rebind_with_del(M.cls))
     except Unsupported:
         wd = int(any(obs))               # unknown loop shape: the tie is broken, only the predicate judges
     fail = None
     if any(obs):
-        k = obs.index(1)
-        fail = ("C17_micro_rebind_no_window", k,
-                f"while a thread was inside {'tensorly.tenalg' if m else 'tensorly.backend'}.use_dynamic_dispatch() (stopped after {k} source lines) another "
-                f"thread's look-up of {M.cls._functions[0]!r} through the manager module raised AttributeError; it is bound before and after the call")
+        j = obs.index(1)
+        fail = ("C17_micro_rebind_no_window", j,
+                f"while a thread was inside {'tensorly.tenalg' if m else 'tensorly.backend'}.use_dynamic_dispatch() (stopped after {positions[j][1]} "
+                f"{positions[j][0]}s) another thread's look-up of {missing[j][:3]} through the manager module raised AttributeError; the names are bound "
+                f"before and after the call")
     lit = pack([9, m, wd, len(obs)] + obs)
-    return [(lit, fail, [f"{'tenalg' if m else 'backend'}.use_dynamic_dispatch||lookup:{'missing' if any(obs) else 'found'}"])], None
+    return [(lit, fail, [f"{'tenalg' if m else 'backend'}.use_dynamic_dispatch||lookup-all-names:{'missing' if any(obs) else 'found'}"])], None
 
 
 # ----------------------------------------------------------------------------- register_backend_method (Model: rst / rop)
@@ -2371,7 +2434,10 @@ def _reg_job(m, histories):
 # The name tables are read off the CURRENT source (cls._functions, cls._attributes, the import list of tensorly/__init__.py)
 # and shipped with the case (Corr/C17.v leading digit 11); a sweep is one ("lcall", t, m, route, n) per name and route: the
 # object that served the name is identified by the attribute-access log of the harness backend classes (nothing logged =
-# a stock object).  Only histories without use_static_dispatch (a bound method fetched earlier logs nothing).
+# a stock object).  Half of the histories call use_static_dispatch() first (op "lstatic": the log shows which object EVERY name
+# was fetched from); afterwards no look-up happens at call time, so the frozen value is matched against what each known
+# backend object holds under the name (bound methods and marker values identify their object; a bare library function
+# shared by all backends does not: outcome "unk", accepted by the comparator).
 def all_names(M):
     import tensorly as tl
     if getattr(M, "_allnames", None) is None:
@@ -2386,10 +2452,59 @@ def all_names(M):
     return M._allnames, M._alltab
 
 
+def lstatic(M):
+    """use_static_dispatch() under attribute-access logging: ('fetched', token of the object EVERY name was fetched from | None
+    when nothing was logged = a stock object)"""
+    names, tab = all_names(M)
+    _ACCESS.log = log = []
+    try:
+        M.mgr.use_static_dispatch()
+    finally:
+        _ACCESS.log = None
+    served = {}
+    for (o, n) in log:
+        served.setdefault(n, o)
+    objs = {id(o): o for n, o in served.items() if n in names}
+    if not objs:
+        return ("fetched", None)
+    if len(objs) == 1 and all(n in served for n in names):
+        return ("fetched", M.token(list(objs.values())[0]))
+    return ("fetched", ("?", f"{len(objs)} objects, {sum(1 for n in names if n not in served)} names not fetched"))
+
+
+def identify_static(M, nm, v):
+    """which backend object does a statically bound value come from?  token | 'unknown' (a bare library function that
+    every backend shares cannot be told apart)"""
+    if isinstance(v, tuple) and len(v) == 2 and v[0] == "c17":
+        return M.token(v[1])
+    me = getattr(v, "__self__", None)
+    if me is not None and M.token(me)[0] != "?":
+        return M.token(me)
+    cands = list(M.pool) + [obj for (_, obj) in M.marked.values()]
+    toks = set()
+    for o in cands:
+        try:
+            w = object.__getattribute__(o, nm)
+        except Exception:  # noqa
+            continue
+        if w is v or (type(w) is type(v) and (hasattr(w, "__self__") or isinstance(w, tuple)) and w == v):
+            toks.add(M.token(o))
+    return toks.pop() if len(toks) == 1 else "unknown"
+
+
 def lcall(M, op):
     names, tab = all_names(M)
     nm, route = names[op[4]], op[3]
     isfun = tab[op[4]] % 2 == 1
+    if len(op) > 5 and op[5] and not (route == 1 and isfun and tab[op[4]] >= 4):
+        # static dispatch is in force and the route does not go through an import-time closure: no look-up happens at call time
+        try:
+            v = getattr(M.mgr if route in (0, 1) else (M.cls if route == 2 else M.lib_alias()), nm) if not (route == 1 and not M.tenalg) \
+                else getattr(M.top_obj, nm)
+        except AttributeError:
+            return ("err",)
+        tok = identify_static(M, nm, v)
+        return ("unk",) if tok == "unknown" else ("ran" if isfun else "val", tok)
     _ACCESS.log = log = []
     try:
         try:
@@ -2429,12 +2544,18 @@ def sweep_history(rng, m):
         if kind == "enter":
             depth[t] += 1
         h.append((kind, t, m, rng.choice(valid), rng.random() < 0.5))
+    static = rng.random() < 0.5
+    if static:
+        # use_static_dispatch by an actor (preferably one holding a selection), then further selections that must NOT show
+        h.append(("lstatic", rng.choice([o[1] for o in h if o[0] in ("set", "enter")] or [1]), m))
+        for _ in range(rng.randint(0, 2)):
+            h.append(("set", rng.choice([1, 2]), m, rng.choice(valid), rng.random() < 0.5))
     for t in (1, 2, 3):
         for n, bits in enumerate(tab):
             routes = [0, 1] if bits % 2 == 1 else ([0] if bits >= 4 else [0, 1])     # an attribute bound at import: manager module only
             routes += [rng.choice([2, 3])]
             for r in routes:
-                h.append(("lcall", t, m, r, n))
+                h.append(("lcall", t, m, r, n, static))
     return tuple(h)
 
 
@@ -2448,10 +2569,16 @@ def encode_sweep(m, nthreads, history, outs):
             ds += [0 if k == "set" else 1, op[1], SELKIND[op[3][0]], 0, op[3][1], int(op[4])]
         elif k == "exit":
             ds += [2, op[1], int(op[3]), 0, 0, 0]
+        elif k == "lstatic":
+            ds += [3, op[1], 0, 0, 0, 0]
         else:
             ds += [7, op[1], op[3], op[4] // 64, op[4] % 64, 0]
         if res[0] == "sel":
             ds += [0, OUTCOME.get(res[1], 3)]
+        elif res[0] == "fetched":
+            ds += [6, tok_digit(res[1])]
+        elif res[0] == "unk":
+            ds += [5, 0]
         elif res[0] in ("ran", "val"):
             ds += [DOUT[res[0]], tok_digit(res[1])]
         else:
@@ -2469,9 +2596,25 @@ def predicates_sweep(m, nthreads, history, outs):
     default = ("n", 0)
     stack = {t: [] for t in range(nthreads)}
     fails = []
+    frozen = None
+
+    def shows(res, tok):
+        return res[1] == tok or (res[1] is None and tok[0] == "n" and tok[1] in M.stock)
     for i, (op, res) in enumerate(zip(history, outs)):
         k, t = op[0], op[1]
         cur = own[t] if own[t] is not None else default
+        if k == "lstatic":
+            frozen = cur
+            if res[0] != "fetched" or not shows(res, cur):
+                fails.append(("C17_static_dispatch_frozen", i, f"use_static_dispatch() by thread {t} fetched the dispatched names from {res}, expected "
+                              f"every name from its current backend {cur}"))
+            continue
+        if k == "lcall" and frozen is not None and not (op[3] == 1 and tab[op[4]] % 2 == 1 and tab[op[4]] >= 4):
+            isfun = tab[op[4]] % 2 == 1
+            if res[0] != "unk" and not (res[0] == ("ran" if isfun else "val") and shows(res, frozen)):
+                fails.append(("C17_static_dispatch_frozen" if isfun else "C17_static_dispatch_frozen_attributes", i,
+                              f"static dispatch frozen on {frozen}: thread {t} reached {names[op[4]]!r} through the {ROUTES[op[3]]}: served by {res}"))
+            continue
         if k in ("set", "enter") and res == ("sel", "done"):
             if k == "enter":
                 stack[t].append((cur, op[4]))
@@ -2526,6 +2669,10 @@ def drive_sweep(m, history, nthreads=4):
         for w in workers.values():
             if w.thread is not None:
                 w.thread.join(timeout=TIMEOUT)
+        try:
+            M.mgr.use_dynamic_dispatch()
+        except Exception:  # noqa
+            pass
 
 
 def _sweep_job(m, histories):
@@ -2537,7 +2684,8 @@ def _sweep_job(m, histories):
         outs = drive_sweep(m, h)
         fails = predicates_sweep(m, 4, h, outs)
         out.append((pack(encode_sweep(m, 4, h, outs)), fails[0] if fails else None,
-                    [f"{'tenalg' if m else 'backend'}.sweep-all-names:{len([o for o in h if o[0] == 'lcall'])} look-ups"]))
+                    [f"{'tenalg' if m else 'backend'}.sweep-all-names{'-static' if any(o[0] == 'lstatic' for o in h) else ''}:"
+                     f"{sum(1 for r in outs if r[0] == 'unk')} of {len([o for o in h if o[0] == 'lcall'])} look-ups unidentifiable"]))
     for X in Ms:
         X.reset()
     return out, None
@@ -2845,7 +2993,7 @@ def make_groups(tier, rng):
         groups.append((8 + m, False, 4, systematic_dhistories(m) + [random_dhistory(rng, m, 14 if quick else 40) for _ in range(200 if quick else 2500)],
                        "dispatch-routes"))
         groups.append((8 + m, False, 4, exhaustive_dhistories(m, 3), "dispatch-exhaustive-3"))
-        groups.append((11, False, 2, [m], "rebind-window"))
+        groups.append((11, False, 2, [(m, tuple(rebind_positions(rng, quick)))], "rebind-window"))
         groups.append((16 + m, False, 3, [random_whistory(rng, m, 12 if quick else 30) for _ in range(100 if quick else 1000)], "closure-metadata"))
         groups.append((14 + m, False, 4, [sweep_history(rng, m) for _ in range(6 if quick else 60)], "sweep-all-names"))
         groups.append((12 + m, False, 3, [random_rhistory(rng, m, 12 if quick else 30) for _ in range(120 if quick else 1500)], "register-backend-method"))
@@ -2963,7 +3111,8 @@ def run(chk):
     for (_, cid, (pred, i, msg)) in found[:60]:
         mode, main_actor, nthreads, h, tag = meta[cid]
         if mode == 11:
-            chk.finding("use_dynamic_dispatch", {"mode": 11, "manager": h, "stopped_after_lines": i}, msg, pred)
+            gran, k = h[1][i] if i < len(h[1]) else ("line-before-end", 1 + 2 * (i - len(h[1])))
+            chk.finding("use_dynamic_dispatch", {"mode": 11, "manager": h[0], "granularity": gran, "stopped_after": k}, msg, pred)
             continue
         if mode in (16, 17):
             chk.finding("dispatch_backend_method (closure metadata)", {"mode": mode, "history": dhist_to_json(h[:i + 1])}, f"step {i} ({wop_lit(h[i])}): {msg}", pred)
@@ -3099,8 +3248,8 @@ def run(chk):
                        "(digamma / higher_order_moment) incl. a harness subclass that provides nothing under the name, compared with the model's class method table. "
                        "ALL NAMES: 6 (thorough 60) histories per manager ending in sweeps by two actor threads and a thread started at that moment over EVERY name of "
                        "_functions / _attributes through the manager module, tensorly.<name>, and the class or a library alias; the name tables are read off the source and "
-                       "shipped to the model. REBIND: use_dynamic_dispatch under settrace stopped after k = 0..13 lines while another thread looks a name up (model: window "
-                       "iff the loop has the delattr). METADATA: 100 (thorough 1000) random histories per manager of selections, use_dynamic_dispatch, captures and calls of "
+                       "shipped to the model. REBIND: use_dynamic_dispatch under settrace stopped at 56 (thorough 147) positions - source lines 0..11, bytecodes 0..56 step 4, the last 40 lines of the call in steps of 2, random positions in the whole loop - "
+                       "while another thread looks EVERY dispatched name up (model: window iff the loop has the delattr). METADATA: 100 (thorough 1000) random histories per manager of selections, use_dynamic_dispatch, captures and calls of "
                        "f.__wrapped__ / f for the closure of context / outer through the import-time binding and the manager module. INITIALIZE: `import tensorly` in 6 fresh processes under TENSORLY_BACKEND / TENSORLY_TENALG_BACKEND in {unset, default name, other loadable name, "
                        "unlisted name, wrong case, listed-but-not-importable}: outcome (imported / warned / import failed), get_backend() in the importing thread and in a new "
                        "thread, _default_backend compared with the model's `initialize`. Non-trivial = at least two threads act and a context is entered; distinct key = (mode, "
@@ -3140,7 +3289,7 @@ def run(chk):
         if mode == 11:
             chk.disagreement("corr:C17 rebind (whether another thread can find a dispatched name missing during use_dynamic_dispatch differs from what the "
                              "model predicts for the loop found in the source: a window iff the loop deletes the attribute before setting it)",
-                             {"mode": 11, "manager": h})
+                             {"mode": 11, "manager": h[0]})
             continue
         if mode in (8, 9):
             chk.disagreement("corr:C17 dispatch (Model/BackendDispatch.v vs the routes to a dispatched name: manager module, import-time binding / "
@@ -3164,7 +3313,7 @@ def run(chk):
                    "in the instance dict of the stock instances identify the object a call ran on / an attribute came from; tensorly.int64 (bound at import, "
                    "before the marking) is recognised as the stock numpy backend's value",
                    "use_static_dispatch / use_dynamic_dispatch are driven inside the fork-pool processes only; use_dynamic_dispatch is called after every dispatch history"]
-    return chk.finish({"rebind_window": lambda f: f.get("inputs", {}).get("mode") == 11})
+    return chk.finish()
 
 
 def replay(payload):
@@ -3211,12 +3360,17 @@ def replay(payload):
             print("replay:", f)
         return 1 if fails else 0
     if int(inp["mode"]) == 11:
-        obs = [rebind_window(int(inp["manager"]), k) for k in range(REBIND_STEPS)]
+        gran, k = inp.get("granularity", "line"), int(inp.get("stopped_after", inp.get("stopped_after_lines", 4)))
+        if gran == "line-before-end":
+            gran, k = "line", rebind_total_lines(int(inp["manager"])) - k
+        pos = [(gran, k)]
+        pos += [("line", k) for k in range(REBIND_STEPS)]
+        missing = [rebind_window(int(inp["manager"]), k, g)[0] for (g, k) in pos]
         for M in Mgr.both():
             M.reset()
             M.unmark()
-        print("replay: look-ups during use_dynamic_dispatch (0 found, 1 AttributeError), stopped after k = 0.. lines:", obs)
-        return 1 if any(obs) else 0
+        print("replay: names found missing during use_dynamic_dispatch per stop position:", [x[:2] for x in missing])
+        return 1 if any(missing) else 0
     if int(inp["mode"]) == 10:
         global INIT_ENVS
         m = 1 if str(inp["manager"]).endswith("tenalg") else 0
